@@ -222,6 +222,9 @@ def catalogue(tmpfile):
         obj(), obj(globals=["$default"]), obj(globals=[]), obj(globals=["$default", "$roblox"]),
         obj(globals=["helper", "count"]), obj(globals=["count", "$default", "helper", "count"]),
         obj(globals=["$default", "print"]), obj(globals=["$roblox"]),
+        # short names that the generator would otherwise hand out: losing the list changes the output
+        obj(globals=["$default", "a"], detect_globals=False), obj(globals=["a", "b", "c"], detect_globals=False),
+        obj(globals=["$roblox", "a", "b"], detect_globals=False),
         obj(include_functions=True), obj(include_functions=False), obj(detect_globals=False), obj(detect_globals=True),
         obj(include_functions=True, detect_globals=False, globals=["t"]),
         obj(detect_globals=False, include_functions=False)]
